@@ -496,6 +496,13 @@ Eval vm_compute in map (fun r => match r with (t, _, _, _, _) => map (fun a => c
                     checks = leaf_checks(env, env[n], "v", frozenset(v_ for k_, v_ in mods.items() if k_ in ("block", "opaque")))
                     runs += "    { let v: %s = Default::default(); let mut nz = 0usize; %s println!(\"default %s {}\", nz); %s }\n" % (
                         n, " ".join("if !(%s) { nz += 1; }" % c_ for c_ in checks), n, ("let s = format!(\"{:?}\", v); println!(\"debug %s {}\", s.len() > 0);" % n) if "Debug" in (ds | man) else "")
+                if "Debug" in man and not env[n].union and not env[n].packed and not env[n].opaque and not env[n].blocklisted:
+                    # a hand-written Debug must print every member that implements Debug the way a derive would: `name: {:?}`
+                    # (function pointers beyond 12 arguments are printed as `FunctionPointer`: bindgen's rule predates their Debug impl)
+                    fl = [f_ for f_, t_, w_ in env[n].fields if w_ is None and not (t_.kind == "TArr" and t_.n == 0) and not (base_of(t_).kind == "TFnPtr" and not base_of(t_).ok)]
+                    body = "".join("if let Some(e) = Probe(&v.%s).dbg() { if !s.contains(&format!(\"%s: {}\", e)) { println!(\"debugfield %s %s {:?} {:?}\", s, e); } } " % (f_, f_, n, f_) for f_ in fl)
+                    runs += "    { let v: %s = unsafe { ::std::mem::zeroed() }; let s = format!(\"{:?}\", v); %s}\n" % (n, body)
+                if "Default" in man:
                     mm = re.search(r"impl Default for %s \{.*?\n\}" % n, out, re.S)
                     if not (mm and re.search(r"write_bytes\(\s*s\.as_mut_ptr\(\)\s*,\s*0\s*,\s*1\s*\)", mm.group(0))):
                         probes += "    compile_error!(\"hand-written Default of %s does not zero the whole object\");\n" % n
@@ -508,6 +515,8 @@ Eval vm_compute in map (fun r => match r with (t, _, _, _, _) => map (fun a => c
                     user = "#[repr(C)] pub struct %s(pub [%s; %d]);\n" % (mods["block"], el, s // a)
                 else:
                     user = "#[repr(C, align(%d))] pub struct %s(pub [u8; %d]);\n" % (a, mods["block"], s)
+            user += ("struct Probe<'a, T>(&'a T);\ntrait NoDbg { fn dbg(&self) -> Option<String> { None } }\nimpl<'a, T> NoDbg for Probe<'a, T> {}\n"
+                     "impl<'a, T: ::std::fmt::Debug> Probe<'a, T> { fn dbg(&self) -> Option<String> { Some(format!(\"{:?}\", self.0)) } }\n")
             src = ("#![allow(warnings)]\n" + user + out + "\n" + "".join("fn needs_%s<T: %s>() {}\n" % (t.lower(), {"Debug": "::std::fmt::Debug", "Hash": "::std::hash::Hash"}.get(t, t)) for t in TRAITS)
                    + "fn main() {\n" + probes + runs + "}\n")
             open(os.path.join(d, "m.rs"), "w").write(src)
@@ -554,6 +563,8 @@ Eval vm_compute in map (fun r => match r with (t, _, _, _, _) => map (fun a => c
                 p = line.split()
                 if p[0] == "default" and p[2] != "0":
                     ck.violation("C08-default-not-zero", "Default::default() of a generated type is not the all-zero object (%s non-zero bytes)" % p[2], dict(base, type=p[1]))
+                if p[0] == "debugfield":
+                    ck.violation("C08-manual-debug-differs", "the hand-written Debug prints member %s.%s differently from what a derive would print (`name: {:?}` of the member)" % (p[1], p[2]), dict(base, type=p[1], member=p[2], line=line[:400]))
                 if p[0] == "debug" and p[2] != "true":
                     ck.violation("C08-debug-empty", "Debug formatting yields nothing", dict(base, type=p[1]))
         if results:
@@ -589,6 +600,30 @@ Eval vm_compute in map (fun r => match r with (t, _, _, _, _) => map (fun a => c
                 why = "complex-lacks-partialord" if ("--with-derive-partialord" in fl and re.search(r"can't compare `__BindgenComplex", se)) else "complex-other"
                 ck.violation("C08-bindings-rejected:E0277:" + why, "rustc rejects the derives of a struct holding a _Complex member",
                              {"header": open(os.path.join(d, "c.h")).read(), "flags": fl, "rustc": e2e.rustc_errors(se, 2)})
+        # ---- hand-written Debug on a struct with character arrays of every flavour, filled with non-zero bytes (no terminator anywhere)
+        open(os.path.join(d, "dbg.h"), "w").write("struct R { %s; char tag[4]; unsigned secret; signed char st[2]; unsigned char ut[3]; char big[40]; short sh[3]; const char *p; char last[2]; };\n" % (FN13 % "cb"))
+        for fl in (["--impl-debug"], ["--impl-debug", "--use-core", "--with-derive-default"], ["--impl-debug", "--no-derive-copy"]):
+            rc, out, err = sh2([bindgen, os.path.join(d, "dbg.h"), "--no-layout-tests"] + fl, timeout=60)
+            fields = ["tag", "secret", "st", "ut", "big", "sh", "p", "last"]
+            body = "".join("if let Some(e) = Probe(&v.%s).dbg() { if !s.contains(&format!(\"%s: {}\", e)) { println!(\"debugfield R %s {:?} {:?}\", s, e); } } " % (f_, f_, f_) for f_ in fields)
+            src = ("#![allow(warnings)]\nstruct Probe<'a, T>(&'a T);\ntrait NoDbg { fn dbg(&self) -> Option<String> { None } }\nimpl<'a, T> NoDbg for Probe<'a, T> {}\n"
+                   "impl<'a, T: ::std::fmt::Debug> Probe<'a, T> { fn dbg(&self) -> Option<String> { Some(format!(\"{:?}\", self.0)) } }\n" + out +
+                   "\nfn main() { let mut v: R = unsafe { ::std::mem::zeroed() }; unsafe { ::std::ptr::write_bytes(&mut v as *mut R as *mut u8, 0x41, ::std::mem::size_of::<R>()); } v.cb = None; v.p = ::std::ptr::null();\n"
+                   "  let s = format!(\"{:?}\", v); println!(\"len {}\", s.len()); %s}\n" % body)
+            open(os.path.join(d, "dbg.rs"), "w").write(src)
+            rc2, so, se = sh2(["rustc", "--edition", "2021", "-A", "warnings", "-o", "dbg", "dbg.rs"], cwd=d, timeout=120)
+            ck.evaluations += 1
+            ck.nontrivial.add(("manual-debug", tuple(fl)))
+            data = {"header": open(os.path.join(d, "dbg.h")).read(), "flags": fl}
+            if rc2 != 0:
+                ck.violation("C08-bindings-rejected:manual-debug-experiment", "rustc rejects the hand-written Debug of a struct with character arrays", dict(data, rustc=e2e.rustc_errors(se, 2)))
+                continue
+            rc3, so, se = sh2(["./dbg"], cwd=d, timeout=60)
+            if rc3 != 0:
+                ck.violation("C08-manual-impl-panics", "formatting a struct through its hand-written Debug fails", dict(data, exit=rc3, stderr=se[-300:]))
+            for line in so.splitlines():
+                if line.startswith("debugfield"):
+                    ck.violation("C08-manual-debug-differs", "the hand-written Debug prints member %s differently from what a derive would print (`name: {:?}` of the member)" % line.split()[2], dict(data, line=line[:500]))
     finally:
         shutil.rmtree(tmp, ignore_errors=True)
 
